@@ -132,6 +132,38 @@ theorem C11_presentations_success_partial (ext : Ext) (fields : List Field) (row
   obtain ⟨arrs2, h2⟩ := hcomplete hok
   exact ⟨arrs2, h2, C11_presentations ext fields rows1 rows2 arrs1 arrs2 hmap hschema hcov hsafe hraw1 hraw2 hsame h1 h2⟩
 
+/-! ### neighbours -/
+
+theorem slot_of_cols (n i : Nat) (hi : i < n) (cols : List (String × List LVal)) (hl : ∀ c ∈ cols, c.2.length = n) :
+    (cols.map fun c => c.2.map (Except.ok (ε := Fail))).map (·[i]?) =
+      (cols.map fun c => (c.1, c.2.getD i LVal.null)).map (fun p => some (.ok p.2)) := by
+  simp only [List.map_map]
+  apply List.map_congr_left
+  intro c hc
+  have h : i < c.2.length := by rw [hl c hc]; exact hi
+  simp [List.getD, List.getElem?_eq_getElem h]
+
+/-- **neighbours are not disturbed.**  What a record contributes to the arrays — slot `i` of every column — is a
+function of its own documented value only: take two accepted batches (any sizes, any mix of differently shaped and
+differently presented records around) in which record `i` of the first and record `j` of the second mean the same;
+then slot `i` of the first batch's arrays decodes, column by column, like slot `j` of the second's. -/
+theorem C11_neighbours_undisturbed (ext : Ext) (fields : List Field) (rows1 rows2 : List SVal) (arrs1 arrs2 : List Arr)
+    (hmap : ∀ f ∈ fields, Lemmas.C03.Map2F f) (hschema : ∀ f ∈ fields, Lemmas.C03.SchemaOKF f)
+    (hcov : fields.all Build.coveredF = true)
+    (hsafe : ∀ root0, newRoot fields = .ok root0 → Safe root0)
+    (hraw1 : ∀ x ∈ rows1, noRaw x = true) (hraw2 : ∀ x ∈ rows2, noRaw x = true)
+    (h1 : toMarrow ext fields rows1 = .ok arrs1) (h2 : toMarrow ext fields rows2 = .ok arrs2)
+    (i j : Nat) (hi : i < rows1.length) (hj : j < rows2.length)
+    (hsame : interpRow ext fields rows1[i] = interpRow ext fields rows2[j]) :
+    (arrs1.map decodeAll).map (·[i]?) = (arrs2.map decodeAll).map (·[j]?) := by
+  obtain ⟨_, cols1, a1, _, l1, r1⟩ := C01.C01_build_decode ext fields rows1 arrs1 hmap hschema hcov hsafe hraw1 h1
+  obtain ⟨_, cols2, a2, _, l2, r2⟩ := C01.C01_build_decode ext fields rows2 arrs2 hmap hschema hcov hsafe hraw2 h2
+  rw [a1, a2, slot_of_cols _ i hi cols1 l1, slot_of_cols _ j hj cols2 l2]
+  have e1 := r1 i hi
+  rw [hsame, r2 j hj] at e1
+  simp only [Except.ok.injEq, LVal.struct.injEq] at e1
+  rw [LFields.ofList_inj e1]
+
 /-! ### where the documented mapping is undefined, the conversion is refused -/
 
 /-- **no documented value ⇒ refused.**  If some record of a batch has no documented value (`interpRow` is an error:
@@ -261,19 +293,28 @@ theorem exSame : exRows1.map (interpRow {} exFields) = exRows2.map (interpRow {}
 theorem exOk : (toMarrow {} exFields exRows1).isOk = true ∧ (toMarrow {} exFields exRows2).isOk = true := by
   constructor <;> decide +kernel
 
+theorem exMap : ∀ f ∈ exFields, Lemmas.C03.Map2F f := by simp [exFields, Lemmas.C03.Map2F, Lemmas.C03.Map2]
+theorem exSchema : ∀ f ∈ exFields, Lemmas.C03.SchemaOKF f := by simp [exFields, Lemmas.C03.SchemaOKF, Lemmas.C03.SchemaOK]
+theorem exSafe : ∀ root0, newRoot exFields = .ok root0 → Safe root0 := by
+  intro root0 h0
+  rw [show newRoot exFields = .ok (.struct "$" 0 none
+    (.cons (.leaf "$.a" (.int .i32) none []) ⟨"a", false, []⟩
+      (.cons (.bytes "$.b" .utf8 (some []) [0] []) ⟨"b", true, []⟩ .nil)) [none, none] 0 [false, false]) from by decide] at h0
+  cases h0
+  simp [Safe, SafeL]
+
 /-- `C11_presentations` applies with every hypothesis discharged -/
 example : ∀ arrs1 arrs2, toMarrow {} exFields exRows1 = .ok arrs1 → toMarrow {} exFields exRows2 = .ok arrs2 →
-    arrs1.map decodeAll = arrs2.map decodeAll := by
-  intro arrs1 arrs2 h1 h2
-  refine C11_presentations {} exFields exRows1 exRows2 arrs1 arrs2 ?_ ?_ (by decide) ?_ (by decide) (by decide) exSame h1 h2
-  · simp [exFields, Lemmas.C03.Map2F, Lemmas.C03.Map2]
-  · simp [exFields, Lemmas.C03.SchemaOKF, Lemmas.C03.SchemaOK]
-  · intro root0 h0
-    rw [show newRoot exFields = .ok (.struct "$" 0 none
-      (.cons (.leaf "$.a" (.int .i32) none []) ⟨"a", false, []⟩
-        (.cons (.bytes "$.b" .utf8 (some []) [0] []) ⟨"b", true, []⟩ .nil)) [none, none] 0 [false, false]) from by decide] at h0
-    cases h0
-    simp [Safe, SafeL]
+    arrs1.map decodeAll = arrs2.map decodeAll := fun arrs1 arrs2 h1 h2 =>
+  C11_presentations {} exFields exRows1 exRows2 arrs1 arrs2 exMap exSchema (by decide) exSafe (by decide) (by decide)
+    exSame h1 h2
+
+/-- `C11_neighbours_undisturbed`: the second record of the struct batch alone, as a tuple: slot 1 there = slot 0 here -/
+example : ∀ arrs1 arrs2, toMarrow {} exFields exRows1 = .ok arrs1 →
+    toMarrow {} exFields [.tuple (.cons (.int .i64 2) (.cons .none .nil))] = .ok arrs2 →
+    (arrs1.map decodeAll).map (·[1]?) = (arrs2.map decodeAll).map (·[0]?) := fun arrs1 arrs2 h1 h2 =>
+  C11_neighbours_undisturbed {} exFields exRows1 _ arrs1 arrs2 exMap exSchema (by decide) exSafe (by decide) (by decide)
+    h1 h2 1 0 (by decide) (by decide) (by decide +kernel)
 
 /-- absent required field `a` / field `b` given twice: no documented value, refused -/
 example : (∃ e, interpRow {} exFields (.record "R" (.cons "b" 1 (.str "x") .nil)) = .error e) ∧
